@@ -586,6 +586,267 @@ Definition prog_regional_maximum_struct (s : nat) : prog :=
 Lemma regional_maximum_struct_ok : forall s, accepts (prog_regional_maximum_struct s) = true.
 Proof. intros s. unfold accepts, prog_regional_maximum_struct. cbn. rewrite ?PeanoNat.Nat.eqb_refl. cbn. reflexivity. Qed.
 
+
+(* ---- the INTEGER-MASK interpretation: the mask argument is an integer array with values 0 / non-zero, so that
+   x[mask] is integer fancy indexing and ~mask a bitwise complement unless the code looks at truthiness.  The
+   functions that handle such masks must be accepted under this reading too; the others are finding F24. *)
+Definition prog_median_filter_intmask : prog :=
+  ([(Glob 6 [(Select Img MaskE FalseC); MaskE]);
+    (Pw 14 [(Pw 15 [(Glob 16 [(Ref 0)])]); (Pw 17 [(Glob 18 [(Ref 0)])])]);
+    (Glob 21 [(Ref 0)]);
+    (Glob 7 [(Select (Glob 8 [(Select (Glob 22 [(Ref 2)]) (Ref 1) (Ref 0)); MaskE]) MaskE (Const 3)); MaskE])],
+   (Select (Pw 2 [Img]) (Glob 0 [(Pw 1 [MaskE])]) (Select (Glob 19 [(Select (Glob 20 [(Ref 2)]) (Ref 1) (Const 2)); (Ref 3)]) (Select (Const 1) (Ref 1) FalseC) (Ref 3)))).
+Definition prog_grey_erosion_intmask : prog :=
+  ([],
+   (Select (Glob 23 [(Glob 24 [(Glob 25 [(Const 4); (Select Img MaskE (Const 5))])])]) MaskE Img)).
+Definition prog_grey_dilation_intmask : prog :=
+  ([],
+   (Select (Glob 23 [(Glob 26 [(Glob 25 [(Const 3); (Select Img MaskE FalseC)])])]) MaskE Img)).
+Definition prog_opening_intmask : prog :=
+  ([(Select (Glob 23 [(Glob 24 [(Glob 25 [(Const 4); (Select Img MaskE (Const 5))])])]) MaskE Img)],
+   (Select (Glob 23 [(Glob 26 [(Glob 25 [(Const 3); (Select (Ref 0) MaskE FalseC)])])]) MaskE (Select (Glob 23 [(Glob 24 [(Glob 25 [(Const 4); (Select Img MaskE (Const 5))])])]) MaskE Img))).
+Definition prog_closing_intmask : prog :=
+  ([(Select (Glob 23 [(Glob 26 [(Glob 25 [(Const 3); (Select Img MaskE FalseC)])])]) MaskE Img)],
+   (Select (Glob 23 [(Glob 24 [(Glob 25 [(Const 4); (Select (Ref 0) MaskE (Const 5))])])]) MaskE (Select (Glob 23 [(Glob 26 [(Glob 25 [(Const 3); (Select Img MaskE FalseC)])])]) MaskE Img))).
+Definition prog_white_tophat_intmask : prog :=
+  ([(Select (Glob 23 [(Glob 24 [(Glob 25 [(Const 4); (Select Img MaskE (Const 5))])])]) MaskE Img)],
+   (Select (Pw 27 [Img; (Select (Glob 23 [(Glob 26 [(Glob 25 [(Const 3); (Select (Ref 0) MaskE FalseC)])])]) MaskE (Ref 0))]) MaskE Img)).
+Definition prog_black_tophat_intmask : prog :=
+  ([(Select (Glob 23 [(Glob 26 [(Glob 25 [(Const 3); (Select Img MaskE FalseC)])])]) MaskE Img)],
+   (Select (Pw 27 [(Select (Glob 23 [(Glob 24 [(Glob 25 [(Const 4); (Select (Ref 0) MaskE (Const 5))])])]) MaskE (Ref 0)); Img]) MaskE Img)).
+Definition prog_openlines_intmask : prog :=
+  ([(Select (Glob 23 [(Glob 24 [(Glob 25 [(Const 4); (Select Img MaskE (Const 5))])])]) MaskE Img);
+    (Select (Glob 23 [(Glob 26 [(Glob 25 [(Const 3); (Select (Ref 0) MaskE FalseC)])])]) MaskE (Ref 0))],
+   (Pw 27 [(Pw 28 [(Ref 1)]); (Pw 29 [(Ref 1)])])).
+Definition prog_sobel_intmask : prog :=
+  ([(Pw 32 [(Select (Pw 33 [(Loc 1 34 Img)]) (Erode 1 MaskE) FalseC)])],
+   (Pw 30 [(Pw 31 [(Ref 0); (Ref 0)])])).
+Definition prog_hsobel_intmask : prog :=
+  ([],
+   (Select (Pw 33 [(Loc 1 34 Img)]) (Erode 1 MaskE) FalseC)).
+Definition prog_vsobel_intmask : prog :=
+  ([],
+   (Select (Pw 33 [(Loc 1 34 Img)]) (Erode 1 MaskE) FalseC)).
+Definition prog_prewitt_intmask : prog :=
+  ([(Pw 32 [(Select (Pw 33 [(Loc 1 34 Img)]) (Erode 1 MaskE) FalseC)])],
+   (Pw 30 [(Pw 31 [(Ref 0); (Ref 0)])])).
+Definition prog_hprewitt_intmask : prog :=
+  ([],
+   (Select (Pw 33 [(Loc 1 34 Img)]) (Erode 1 MaskE) FalseC)).
+Definition prog_vprewitt_intmask : prog :=
+  ([],
+   (Select (Pw 33 [(Loc 1 34 Img)]) (Erode 1 MaskE) FalseC)).
+Definition prog_roberts_intmask : prog :=
+  ([(Erode 1 MaskE);
+    (Glob 6 [(Select Img (Ref 0) FalseC); (Ref 0)]);
+    (Pw 27 [(Ref 1); (Glob 6 [(Select (Loc 1 36 Img) (Ref 0) FalseC); (Ref 0)])]);
+    (Pw 27 [(Ref 1); (Glob 6 [(Select (Loc 1 37 Img) (Ref 0) FalseC); (Ref 0)])])],
+   (Select (Glob 8 [(Pw 30 [(Pw 31 [(Pw 35 [(Ref 2); (Ref 2)]); (Pw 35 [(Ref 3); (Ref 3)])])]); (Ref 0)]) (Ref 0) (Select (Const 3) (Ref 0) FalseC))).
+Definition prog_canny_intmask : prog :=
+  ([(Loc 1 34 (Pw 41 [(Glob 42 [(Glob 75 [MaskE; (Glob 19 [Img; MaskE])])]); (Pw 31 [(Glob 42 [MaskE])])]));
+    (Pw 35 [(Ref 0); (Ref 0)]);
+    (Pw 30 [(Pw 31 [(Ref 1); (Ref 1)])]);
+    (Loc 1 44 (Ref 2));
+    (Pw 33 [(Ref 0)]);
+    (Pw 40 [(Ref 4); (Ref 4)]);
+    (Pw 40 [(Ref 0)]);
+    (Select (Ref 5) (Ref 6) FalseC);
+    (Pw 43 [(Ref 0)]);
+    (Select (Ref 5) (Ref 8) FalseC);
+    (Select (Pw 17 [(Ref 2)]) (Erode 1 MaskE) FalseC);
+    (Select (Pw 45 [(Select (Ref 7) (Ref 8) FalseC); (Select (Ref 9) (Ref 6) FalseC)]) (Ref 10) FalseC);
+    (Glob 6 [(Select (Ref 4) (Ref 11) FalseC); (Ref 11)]);
+    (Pw 41 [(Ref 12); (Ref 12)]);
+    (Loc 1 46 (Ref 2));
+    (Pw 27 [(Ref 13)]);
+    (Glob 6 [(Select (Ref 2) (Ref 11) FalseC); (Ref 11)]);
+    (Loc 1 36 (Ref 2));
+    (Loc 1 47 (Ref 2));
+    (Pw 43 [(Ref 4); (Ref 4)]);
+    (Select (Ref 19) (Ref 6) FalseC);
+    (Select (Ref 19) (Ref 8) FalseC);
+    (Select (Pw 45 [(Select (Ref 20) (Ref 8) FalseC); (Select (Ref 21) (Ref 6) FalseC)]) (Ref 10) FalseC);
+    (Glob 6 [(Select (Ref 4) (Ref 22) FalseC); (Ref 22)]);
+    (Pw 41 [(Ref 23); (Ref 23)]);
+    (Loc 1 48 (Ref 2));
+    (Pw 27 [(Ref 24)]);
+    (Glob 6 [(Select (Ref 2) (Ref 22) FalseC); (Ref 22)]);
+    (Loc 1 49 (Ref 2));
+    (Loc 1 50 (Ref 2));
+    (Select (Pw 45 [(Select (Ref 20) (Ref 6) FalseC); (Select (Ref 21) (Ref 8) FalseC)]) (Ref 10) FalseC);
+    (Glob 6 [(Select (Ref 4) (Ref 30) FalseC); (Ref 30)]);
+    (Pw 41 [(Ref 31); (Ref 31)]);
+    (Pw 27 [(Ref 32)]);
+    (Glob 6 [(Select (Ref 2) (Ref 30) FalseC); (Ref 30)]);
+    (Loc 1 37 (Ref 2));
+    (Select (Pw 45 [(Select (Ref 7) (Ref 6) FalseC); (Select (Ref 9) (Ref 8) FalseC)]) (Ref 10) FalseC);
+    (Glob 6 [(Select (Ref 4) (Ref 36) FalseC); (Ref 36)]);
+    (Pw 41 [(Ref 37); (Ref 37)]);
+    (Pw 27 [(Ref 38)]);
+    (Glob 6 [(Select (Ref 2) (Ref 36) FalseC); (Ref 36)]);
+    (Select (Pw 40 [(Ref 2)]) (Select (Glob 8 [(Select (Pw 43 [(Pw 31 [(Pw 35 [(Glob 6 [(Select (Ref 3) (Ref 11) FalseC); (Ref 11)]); (Ref 13)]); (Pw 35 [(Glob 6 [(Select (Ref 14) (Ref 11) FalseC); (Ref 11)]); (Ref 15)])]); (Ref 16)]) (Pw 43 [(Pw 31 [(Pw 35 [(Glob 6 [(Select (Ref 17) (Ref 11) FalseC); (Ref 11)]); (Ref 13)]); (Pw 35 [(Glob 6 [(Select (Ref 18) (Ref 11) FalseC); (Ref 11)]); (Ref 15)])]); (Ref 16)]) FalseC); (Ref 11)]) (Ref 11) (Select (Glob 8 [(Select (Pw 43 [(Pw 31 [(Pw 35 [(Glob 6 [(Select (Ref 3) (Ref 22) FalseC); (Ref 22)]); (Ref 24)]); (Pw 35 [(Glob 6 [(Select (Ref 25) (Ref 22) FalseC); (Ref 22)]); (Ref 26)])]); (Ref 27)]) (Pw 43 [(Pw 31 [(Pw 35 [(Glob 6 [(Select (Ref 17) (Ref 22) FalseC); (Ref 22)]); (Ref 24)]); (Pw 35 [(Glob 6 [(Select (Ref 28) (Ref 22) FalseC); (Ref 22)]); (Ref 26)])]); (Ref 27)]) FalseC); (Ref 22)]) (Ref 22) (Select (Glob 8 [(Select (Pw 43 [(Pw 31 [(Pw 35 [(Glob 6 [(Select (Ref 29) (Ref 30) FalseC); (Ref 30)]); (Ref 32)]); (Pw 35 [(Glob 6 [(Select (Ref 25) (Ref 30) FalseC); (Ref 30)]); (Ref 33)])]); (Ref 34)]) (Pw 43 [(Pw 31 [(Pw 35 [(Glob 6 [(Select (Ref 35) (Ref 30) FalseC); (Ref 30)]); (Ref 32)]); (Pw 35 [(Glob 6 [(Select (Ref 28) (Ref 30) FalseC); (Ref 30)]); (Ref 33)])]); (Ref 34)]) FalseC); (Ref 30)]) (Ref 30) (Select (Glob 8 [(Select (Pw 43 [(Pw 31 [(Pw 35 [(Glob 6 [(Select (Ref 29) (Ref 36) FalseC); (Ref 36)]); (Ref 38)]); (Pw 35 [(Glob 6 [(Select (Ref 18) (Ref 36) FalseC); (Ref 36)]); (Ref 39)])]); (Ref 40)]) (Pw 43 [(Pw 31 [(Pw 35 [(Glob 6 [(Select (Ref 35) (Ref 36) FalseC); (Ref 36)]); (Ref 38)]); (Pw 35 [(Glob 6 [(Select (Ref 14) (Ref 36) FalseC); (Ref 36)]); (Ref 39)])]); (Ref 40)]) FalseC); (Ref 36)]) (Ref 36) (Const 3))))) FalseC);
+    (Glob 39 [(Ref 41)]);
+    (Glob 20 [(Ref 42)]);
+    (Glob 22 [(Ref 42)])],
+   (Select (Select (Pw 40 [(Ref 2)]) (Select (Glob 8 [(Select (Pw 43 [(Pw 31 [(Pw 35 [(Glob 6 [(Select (Ref 3) (Ref 11) FalseC); (Ref 11)]); (Ref 13)]); (Pw 35 [(Glob 6 [(Select (Ref 14) (Ref 11) FalseC); (Ref 11)]); (Ref 15)])]); (Ref 16)]) (Pw 43 [(Pw 31 [(Pw 35 [(Glob 6 [(Select (Ref 17) (Ref 11) FalseC); (Ref 11)]); (Ref 13)]); (Pw 35 [(Glob 6 [(Select (Ref 18) (Ref 11) FalseC); (Ref 11)]); (Ref 15)])]); (Ref 16)]) FalseC); (Ref 11)]) (Ref 11) (Select (Glob 8 [(Select (Pw 43 [(Pw 31 [(Pw 35 [(Glob 6 [(Select (Ref 3) (Ref 22) FalseC); (Ref 22)]); (Ref 24)]); (Pw 35 [(Glob 6 [(Select (Ref 25) (Ref 22) FalseC); (Ref 22)]); (Ref 26)])]); (Ref 27)]) (Pw 43 [(Pw 31 [(Pw 35 [(Glob 6 [(Select (Ref 17) (Ref 22) FalseC); (Ref 22)]); (Ref 24)]); (Pw 35 [(Glob 6 [(Select (Ref 28) (Ref 22) FalseC); (Ref 22)]); (Ref 26)])]); (Ref 27)]) FalseC); (Ref 22)]) (Ref 22) (Select (Glob 8 [(Select (Pw 43 [(Pw 31 [(Pw 35 [(Glob 6 [(Select (Ref 29) (Ref 30) FalseC); (Ref 30)]); (Ref 32)]); (Pw 35 [(Glob 6 [(Select (Ref 25) (Ref 30) FalseC); (Ref 30)]); (Ref 33)])]); (Ref 34)]) (Pw 43 [(Pw 31 [(Pw 35 [(Glob 6 [(Select (Ref 35) (Ref 30) FalseC); (Ref 30)]); (Ref 32)]); (Pw 35 [(Glob 6 [(Select (Ref 28) (Ref 30) FalseC); (Ref 30)]); (Ref 33)])]); (Ref 34)]) FalseC); (Ref 30)]) (Ref 30) (Select (Glob 8 [(Select (Pw 43 [(Pw 31 [(Pw 35 [(Glob 6 [(Select (Ref 29) (Ref 36) FalseC); (Ref 36)]); (Ref 38)]); (Pw 35 [(Glob 6 [(Select (Ref 18) (Ref 36) FalseC); (Ref 36)]); (Ref 39)])]); (Ref 40)]) (Pw 43 [(Pw 31 [(Pw 35 [(Glob 6 [(Select (Ref 35) (Ref 36) FalseC); (Ref 36)]); (Ref 38)]); (Pw 35 [(Glob 6 [(Select (Ref 14) (Ref 36) FalseC); (Ref 36)]); (Ref 39)])]); (Ref 40)]) FalseC); (Ref 36)]) (Ref 36) (Const 3))))) FalseC) (Pw 38 [(Ref 43)]) (Glob 19 [(Glob 51 [(Glob 52 [(Pw 31 [(Ref 43)])]); (Pw 17 [(Glob 53 [(Glob 54 [(Ref 41); (Ref 44); (Pw 31 [(Glob 55 [(Ref 43)])])])])])]); (Ref 44)]))).
+Definition prog_laplacian_of_gaussian_intmask : prog :=
+  ([(Pw 107 [MaskE])],
+   (Glob 75 [(Pw 31 [(Glob 56 [(Glob 75 [(Pw 2 [Img]); (Ref 0)])]); (Pw 35 [(Glob 56 [(Pw 69 [(Ref 0)])]); Img])]); (Ref 0); (Glob 19 [Img; (Ref 0)])])).
+Definition prog_variance_transform_intmask : prog :=
+  ([(Glob 75 [(Pw 2 [Img]); (Pw 107 [MaskE])]);
+    (Glob 57 [MaskE])],
+   (Pw 27 [(Pw 41 [(Glob 57 [(Pw 32 [(Ref 0)])]); (Ref 1)]); (Pw 32 [(Pw 41 [(Glob 57 [(Ref 0)]); (Ref 1)])])])).
+Definition prog_circular_average_filter_intmask : prog :=
+  ([],
+   (Select (MConv 58 (Pw 10 [Img]) MaskE) MaskE Img)).
+Definition prog_smooth_with_function_and_mask_intmask : prog :=
+  ([],
+   (Pw 41 [(Glob 42 [(Glob 75 [MaskE; (Glob 19 [Img; MaskE])])]); (Pw 31 [(Glob 42 [MaskE])])])).
+Definition prog_stretch_intmask : prog :=
+  ([(Pw 59 [Img]);
+    (Glob 19 [(Ref 0); MaskE]);
+    (Glob 16 [(Ref 1)]);
+    (Glob 18 [(Ref 1)])],
+   (Select (Ref 0) (Const 6) (Select (Ref 0) (Pw 38 [(Glob 76 [(Ref 1)])]) (Glob 75 [(Ref 0); MaskE; (Select (Ref 2) (Pw 38 [(Ref 2); (Ref 3)]) (Pw 41 [(Pw 27 [(Ref 1); (Ref 2)]); (Pw 27 [(Ref 3); (Ref 2)])]))])))).
+Definition prog_fit_polynomial_intmask : prog :=
+  ([(Select (Pw 17 [Img]) MaskE FalseC);
+    (Glob 6 [(Select (Const 8) (Ref 0) FalseC); (Ref 0)]);
+    (Glob 6 [(Select (Const 9) (Ref 0) FalseC); (Ref 0)]);
+    (Glob 54 [(Glob 61 [(Glob 19 [(Glob 62 [(Glob 63 [(Pw 59 [(Ref 1); (Ref 1); (Ref 2); (Ref 2); (Ref 2); (Glob 6 [(Select (Const 4) (Ref 0) FalseC); (Ref 0)])])]); (Glob 6 [(Select Img (Ref 0) FalseC); (Ref 0)])])])])]);
+    (Select (Const 5) (Pw 17 [(Ref 3)]) (Ref 3))],
+   (Select (Select (Select FalseC (Pw 15 [(Ref 4)]) (Select (Const 5) (Pw 17 [(Ref 3)]) (Ref 3))) (Const 7) (Ref 3)) (Glob 11 [(Ref 0)]) Img)).
+Definition prog_circular_hough_intmask : prog :=
+  ([(Glob 65 [MaskE]);
+    (Glob 19 [(Glob 65 [Img]); (Ref 0)]);
+    (Glob 64 [(Ref 0); (Ref 1)]);
+    (Glob 66 [(Ref 0); (Ref 1)])],
+   (Select (Pw 41 [(Ref 3); (Ref 2)]) (Pw 17 [(Ref 2)]) (Ref 3))).
+Definition prog_convex_hull_transform_intmask : prog :=
+  ([(Glob 19 [Img; MaskE]);
+    (Glob 16 [(Ref 0)]);
+    (Glob 18 [(Ref 0)]);
+    (Pw 27 [(Ref 2); (Ref 1)]);
+    (Glob 75 [(Pw 41 [(Pw 35 [(Pw 27 [Img; (Ref 1)])]); (Ref 3)]); (Pw 107 [MaskE])]);
+    (Pw 69 [(Select (Pw 70 [(Ref 4); (Glob 71 [(Pw 72 [(Ref 4)])])]) (Const 6) (Ref 4))]);
+    (Glob 68 [(Ref 5)]);
+    (Glob 55 [(Glob 67 [(Ref 6)])]);
+    (Glob 19 [(Glob 75 [(Ref 6); (Ref 7)]); (Ref 5)]);
+    (Glob 76 [(Ref 8)]);
+    (Glob 75 [(Glob 75 [(Glob 75 [(Glob 75 [(Pw 69 [(Glob 23 [(Glob 24 [(Glob 25 [(Glob 80 [(Pw 31 [(Pw 59 [(Ref 9)])])]); (Ref 8)])])])])])])])]);
+    (Pw 17 [(Ref 8); (Ref 10)]);
+    (Glob 6 [(Select (Ref 8) (Ref 11) FalseC); (Ref 11)]);
+    (Glob 6 [(Select (Ref 10) (Ref 11) FalseC); (Ref 11)]);
+    (Pw 27 [(Ref 12); (Ref 13)]);
+    (Pw 27 [(Glob 74 [(Ref 14)]); (Ref 14)]);
+    (Glob 54 [(Ref 14)]);
+    (Glob 67 [(Ref 14)]);
+    (Glob 81 [(Glob 19 [(Ref 9)])]);
+    (Glob 19 [(Ref 18); (Ref 18)]);
+    (Glob 6 [(Select (Glob 22 [(Ref 19)]) (Ref 11) FalseC); (Ref 11)]);
+    (Glob 6 [(Select (Glob 20 [(Ref 19)]) (Ref 11) FalseC); (Ref 11)]);
+    (Glob 77 [(Glob 78 [(Glob 79 [(Ref 15); (Ref 16); (Ref 17); (Ref 13); (Ref 12); (Ref 20); (Ref 21); (Ref 7)]); (Glob 82 [(Ref 15); (Ref 16); (Ref 17); (Ref 13); (Ref 12); (Ref 20); (Ref 21); (Ref 7)]); (Glob 83 [(Ref 15); (Ref 16); (Ref 17); (Ref 13); (Ref 12); (Ref 20); (Ref 21); (Ref 7)])]); (Ref 7)]);
+    (Glob 19 [(Glob 22 [(Ref 22)])]);
+    (Glob 20 [(Ref 22)]);
+    (Pw 27 [(Glob 74 [(Ref 24)]); (Ref 24)]);
+    (Glob 19 [(Ref 23); (Glob 75 [(Pw 31 [(Glob 55 [(Glob 67 [(Ref 23)])])]); (Pw 27 [(Pw 31 [(Ref 25); (Ref 24)])]); (Ref 25)])]);
+    (Glob 85 [(Ref 23); (Ref 23); (Ref 26); (Ref 26)]);
+    (Glob 84 [(Ref 27)]);
+    (Glob 19 [(Ref 23); (Glob 74 [(Glob 75 [(Glob 52 [(Glob 67 [(Ref 28)])]); (Glob 86 [(Glob 22 [(Ref 27)])])])])]);
+    (Glob 88 [(Ref 27)]);
+    (Glob 87 [(Ref 29); (Ref 28); (Ref 30)]);
+    (Glob 19 [(Ref 28); (Ref 31)]);
+    (Glob 19 [(Ref 30); (Ref 31)]);
+    (Glob 89 [(Pw 90 [(Pw 91 [(Glob 86 [(Ref 32)]); (Glob 92 [(Ref 32)])]); (Pw 91 [(Glob 86 [(Ref 33)]); (Glob 92 [(Ref 33)])])])]);
+    (Glob 19 [(Glob 19 [(Ref 29); (Ref 31)]); (Ref 34)]);
+    (Glob 52 [(Glob 76 [(Ref 35)])]);
+    (Glob 19 [(Ref 32); (Ref 34)]);
+    (Glob 19 [(Ref 33); (Ref 34)]);
+    (Glob 89 [(Pw 91 [(Glob 86 [(Ref 38)]); (Glob 92 [(Ref 38)])])]);
+    (Glob 19 [(Ref 38); (Ref 39)]);
+    (Glob 19 [(Ref 35); (Ref 39)]);
+    (Pw 1 [(Ref 39)]);
+    (Glob 19 [(Ref 38); (Ref 42)]);
+    (Glob 86 [(Ref 39)]);
+    (Pw 1 [(Ref 44)]);
+    (Glob 19 [(Pw 27 [(Glob 86 [(Ref 35)]); (Glob 92 [(Ref 35)])]); (Ref 45)]);
+    (Pw 93 [(Glob 89 [(Ref 44)]); (Pw 15 [(Ref 37)])])],
+   (Select (Const 3) (Pw 38 [(Glob 67 [(Ref 0)])]) (Select Img (Pw 38 [(Ref 1); (Ref 2)]) (Glob 19 [(Glob 19 [(Pw 31 [(Ref 1); (Pw 41 [(Pw 35 [(Ref 3)])])]); (Ref 6)]); (Pw 73 [(Glob 74 [(Glob 75 [(Glob 75 [(Ref 36); (Glob 19 [(Ref 37); (Ref 39)]); (Ref 40); (Ref 41)]); (Glob 19 [(Ref 37); (Ref 42)]); (Ref 43); (Ref 46)])]); (Glob 74 [(Glob 75 [(Glob 75 [(Glob 75 [(Ref 36); (Ref 40); (Ref 41)]); (Pw 31 [(Glob 19 [(Glob 92 [(Ref 37)]); (Ref 45)])]); (Ref 43); (Ref 46)]); (Pw 31 [(Glob 19 [(Ref 37); (Ref 47)])]); (Glob 19 [(Ref 38); (Ref 47)]); (Pw 94 [(Glob 19 [(Ref 35); (Ref 47)])])])])])])))).
+Definition prog_regional_maximum_intmask : prog :=
+  ([(Select (Select (Pw 1 [(LocS 0 12 Img)]) (ErodeS 0 MaskE) FalseC) (Select (Const 4) MaskE FalseC) FalseC);
+    (Pw 69 [(Glob 19 [(Glob 21 [(Glob 97 [(Ref 0)])])])]);
+    (Glob 99 [(Glob 76 [(Ref 1)])]);
+    (Glob 39 [(Ref 0)]);
+    (Glob 19 [(Pw 59 [(Glob 95 [(Glob 96 [(Ref 1); (Pw 41 [(Pw 69 [(Glob 98 [(Ref 2)])]); (Pw 100 [(Ref 2)])])]); (Glob 22 [(Ref 3)]); (Pw 31 [(Glob 55 [(Glob 20 [(Ref 3)])])])])])])],
+   (Select (Select (Glob 75 [(Ref 4); (Ref 4)]) (Glob 11 [(Ref 0)]) (Select (Select (Pw 1 [(LocS 0 12 Img)]) (ErodeS 0 MaskE) FalseC) (Select (Const 4) MaskE FalseC) FalseC)) (Const 10) (Select (Select (Pw 1 [(LocS 0 12 Img)]) (ErodeS 0 MaskE) FalseC) (Select (Const 4) MaskE FalseC) FalseC))).
+Definition prog_bridge_intmask : prog :=
+  ([(Pw 107 [MaskE])],
+   (Glob 75 [(Glob 101 [(Glob 75 [(Pw 2 [(Pw 69 [Img])]); (Ref 0)])]); (Ref 0); (Glob 19 [Img; (Ref 0)])])).
+Definition prog_clean_intmask : prog :=
+  ([(Pw 107 [MaskE])],
+   (Glob 75 [(Glob 101 [(Glob 75 [(Pw 2 [(Pw 69 [Img])]); (Ref 0)])]); (Ref 0); (Glob 19 [Img; (Ref 0)])])).
+Definition prog_diag_intmask : prog :=
+  ([(Pw 107 [MaskE])],
+   (Glob 75 [(Glob 101 [(Glob 75 [(Pw 2 [(Pw 69 [Img])]); (Ref 0)])]); (Ref 0); (Glob 19 [Img; (Ref 0)])])).
+Definition prog_endpoints_intmask : prog :=
+  ([(Pw 107 [MaskE])],
+   (Glob 75 [(Glob 101 [(Glob 75 [(Pw 2 [(Pw 69 [Img])]); (Ref 0)])]); (Ref 0); (Glob 19 [Img; (Ref 0)])])).
+Definition prog_branchpoints_intmask : prog :=
+  ([(Pw 107 [MaskE])],
+   (Glob 75 [(Glob 101 [(Glob 75 [(Pw 2 [(Pw 69 [Img])]); (Ref 0)])]); (Ref 0); (Glob 19 [Img; (Ref 0)])])).
+Definition prog_fill_intmask : prog :=
+  ([(Pw 107 [MaskE])],
+   (Glob 75 [(Glob 101 [(Glob 75 [(Pw 2 [(Pw 69 [Img])]); (Ref 0)])]); (Ref 0); (Glob 19 [Img; (Ref 0)])])).
+Definition prog_fill4_intmask : prog :=
+  ([(Pw 107 [MaskE])],
+   (Glob 75 [(Glob 101 [(Glob 75 [(Pw 2 [(Pw 69 [Img])]); (Ref 0)])]); (Ref 0); (Glob 19 [Img; (Ref 0)])])).
+Definition prog_hbreak_intmask : prog :=
+  ([(Pw 107 [MaskE])],
+   (Glob 75 [(Glob 101 [(Glob 75 [(Pw 2 [(Pw 69 [Img])]); (Ref 0)])]); (Ref 0); (Glob 19 [Img; (Ref 0)])])).
+Definition prog_vbreak_intmask : prog :=
+  ([(Pw 107 [MaskE])],
+   (Glob 75 [(Glob 101 [(Glob 75 [(Pw 2 [(Pw 69 [Img])]); (Ref 0)])]); (Ref 0); (Glob 19 [Img; (Ref 0)])])).
+Definition prog_majority_intmask : prog :=
+  ([(Pw 107 [MaskE])],
+   (Glob 75 [(Glob 101 [(Glob 75 [(Pw 2 [(Pw 69 [Img])]); (Ref 0)])]); (Ref 0); (Glob 19 [Img; (Ref 0)])])).
+Definition prog_remove_intmask : prog :=
+  ([(Pw 107 [MaskE])],
+   (Glob 75 [(Glob 101 [(Glob 75 [(Pw 2 [(Pw 69 [Img])]); (Ref 0)])]); (Ref 0); (Glob 19 [Img; (Ref 0)])])).
+Definition prog_spur_intmask : prog :=
+  ([(Pw 107 [MaskE]);
+    (Glob 104 [(Glob 75 [(Pw 2 [(Pw 69 [Img])]); (Ref 0)])]);
+    (Glob 22 [(Ref 1)]);
+    (Select (Glob 67 [(Ref 2)]) (Const 11) (Const 12));
+    (Glob 20 [(Ref 1)]);
+    (Glob 84 [(Ref 1)])],
+   (Glob 75 [(Select Img (Glob 102 [(Glob 103 [(Ref 3); (Ref 2); (Ref 4); (Ref 5)]); (Glob 105 [(Ref 3); (Ref 2); (Ref 4); (Ref 5)])]) (Const 13)); (Ref 0); (Glob 19 [Img; (Ref 0)])])).
+Definition prog_thicken_intmask : prog :=
+  ([(Pw 107 [MaskE])],
+   (Glob 75 [(Glob 101 [(Glob 75 [(Pw 2 [(Pw 69 [Img])]); (Ref 0)])]); (Ref 0); (Glob 19 [Img; (Ref 0)])])).
+Definition prog_thin_intmask : prog :=
+  ([(Pw 107 [MaskE]);
+    (Glob 104 [(Glob 75 [(Pw 2 [Img]); (Ref 0)])]);
+    (Glob 22 [(Ref 1)]);
+    (Select (Glob 67 [(Ref 2)]) (Const 11) (Const 12));
+    (Glob 20 [(Ref 1)]);
+    (Glob 84 [(Ref 1)])],
+   (Glob 75 [(Select Img (Glob 102 [(Glob 103 [(Ref 3); (Ref 2); (Ref 4); (Ref 5)]); (Glob 105 [(Ref 3); (Ref 2); (Ref 4); (Ref 5)])]) (Const 13)); (Ref 0); (Glob 19 [Img; (Ref 0)])])).
+Definition prog_skeletonize_intmask : prog :=
+  ([],
+   (Glob 108 [Img])).
+Definition prog_masked_convolution_intmask : prog :=
+  ([],
+   (MConv 58 (Pw 10 [Img]) MaskE)).
+Definition prog_branchings_intmask : prog :=
+  ([],
+   (Glob 19 [(Pw 69 [(Loc 1 34 (Pw 69 [(Glob 75 [(Pw 2 [(Pw 69 [Img])]); (Pw 107 [MaskE])])]))])])).
+Definition intmask_handled_progs : list prog :=
+  [prog_median_filter_intmask; prog_grey_erosion_intmask; prog_grey_dilation_intmask; prog_opening_intmask; prog_closing_intmask; prog_white_tophat_intmask; prog_black_tophat_intmask; prog_openlines_intmask; prog_sobel_intmask; prog_hsobel_intmask; prog_vsobel_intmask; prog_prewitt_intmask; prog_hprewitt_intmask; prog_vprewitt_intmask; prog_roberts_intmask; prog_circular_average_filter_intmask; prog_fit_polynomial_intmask; prog_regional_maximum_intmask; prog_masked_convolution_intmask].
+Lemma intmask_handled_accepted : forallb accepts intmask_handled_progs = true.
+Proof. vm_compute. reflexivity. Qed.
+(* F24 (known finding), statically: verdicts of the checker on canny, laplacian_of_gaussian, variance_transform, smooth_with_function_and_mask, stretch, circular_hough, convex_hull_transform, bridge, clean, diag, endpoints, branchpoints, fill, fill4, hbreak, vbreak, majority, remove, spur, thicken, thin, skeletonize, branchings - computed, not an obligation *)
+Definition f24_intmask_progs : list prog :=
+  [prog_canny_intmask; prog_laplacian_of_gaussian_intmask; prog_variance_transform_intmask; prog_smooth_with_function_and_mask_intmask; prog_stretch_intmask; prog_circular_hough_intmask; prog_convex_hull_transform_intmask; prog_bridge_intmask; prog_clean_intmask; prog_diag_intmask; prog_endpoints_intmask; prog_branchpoints_intmask; prog_fill_intmask; prog_fill4_intmask; prog_hbreak_intmask; prog_vbreak_intmask; prog_majority_intmask; prog_remove_intmask; prog_spur_intmask; prog_thicken_intmask; prog_thin_intmask; prog_skeletonize_intmask; prog_branchings_intmask].
+Definition f24_static_verdicts : list bool := Eval vm_compute in map accepts f24_intmask_progs.
 (* NOT CLAIMED  life  (ignores its mask argument altogether): Glob table_lookup [Img] *)
 (* NOT CLAIMED  granulometry_filter  (normalises by image.max() over the whole image, like enhance_dark_holes (excluded by the property text)): Glob loop:selected_granules_image [Img; Pw sub [Glob max [Img]; Img]; MaskE] *)
 Definition listed_progs : list prog :=
